@@ -99,4 +99,11 @@ theorem malformed_options (defaults opts : List Opt) :
   obtain ⟨fs, hm, hn⟩ := h
   exact Termination.build_optErr _ hnil fs hm hn
 
+/-- options without an effect on resolution — `Logger`, `FuncName`, and after the repairs of F20/F21
+`Logger(nil)` and `ConverterGen(nil)` — leave the builder as it is; nil entries of `ConverterFunc` are dropped -/
+theorem ignored_options (b : Builder) :
+    applyOpt b .other = b ∧ applyOpt b (.convFunc [none]) = { b with convs := b.convs ++ [] } ∧
+    applyOpt b (.named "x" none) = b ∧ applyOpt b (.typed [none]) = b :=
+  ⟨rfl, rfl, rfl, rfl⟩
+
 end ArgMapper.C06
